@@ -43,6 +43,13 @@ class Proxy:
     def floor(self, key, count, floor, what, where=None):
         return self.chk.floor(self._k(key), count, floor, what, where)
 
+    def unreadable(self, key, what, reason, where=None):
+        return self.chk.unreadable(self._k(key), what, reason, where)
+
+    @property
+    def tier(self):
+        return self.chk.tier
+
     def note(self, t):
         self.chk.note(t)
 
